@@ -710,6 +710,23 @@ impl<N: ComplexField + Copy> AdamsCoefficients<3> for AdamsCoefficients3<N> {
 /// ```
 pub type Adams3<'a, N, D, T, F> = Adams<'a, N, D, 3, T, F, AdamsCoefficients3<N>>;
 
+// Verification hook (off by default, enabled only with `--cfg bacon_verif`):
+// read-only view of the step bounds the solver was handed by its builder.
+#[cfg(bacon_verif)]
+impl<'a, N, D, const O: usize, T, F> AdamsSolver<'a, N, D, O, T, F>
+where
+    D: Dimension,
+    N: ComplexField + Copy,
+    T: Clone,
+    F: Derivative<N, D, T> + 'a,
+    DefaultAllocator: Allocator<N, D>,
+{
+    #[doc(hidden)]
+    pub fn verif_dt_bounds(&self) -> (N::RealField, N::RealField) {
+        (self.dt_min.real(), self.dt_max.real())
+    }
+}
+
 #[cfg(test)]
 mod test {
     use super::*;
